@@ -172,15 +172,31 @@ func expand(name string, r *reqRec) frag {
 			return alts("host", r.Host[i+1:])
 		}
 		return alts("host", "80")
-	case "path", "rewrite_path":
+	case "rewrite_path", "rewrite_path_escaped", "rewrite_uri", "rewrite_uri_escaped":
+		if r.RwPath == "" {
+			return expand(strings.TrimPrefix(name, "rewrite_"), r)
+		}
+		// the site rewrites this request: what the inner handlers were given
+		// (or, when the log directive itself produced the error response,
+		// the restored request path: not stated, both are the request's own)
+		switch name {
+		case "rewrite_path":
+			return alts("path", r.RwPath, r.Path)
+		case "rewrite_path_escaped":
+			return alts("path", url.QueryEscape(r.RwPath), url.QueryEscape(r.Path))
+		case "rewrite_uri":
+			return alts("uri", r.RwPath+"?"+r.RawQuery, r.Target, r.NormURI)
+		}
+		return alts("uri", url.QueryEscape(r.RwPath+"?"+r.RawQuery), url.QueryEscape(r.Target), url.QueryEscape(r.NormURI))
+	case "path":
 		return alts("path", r.Path)
-	case "path_escaped", "rewrite_path_escaped":
+	case "path_escaped":
 		return alts("path", url.QueryEscape(r.Path))
-	case "uri", "rewrite_uri":
+	case "uri":
 		// "the request URI (path + query)": as sent, or in the URL
 		// library's normal form of the same target
 		return alts("uri", r.Target, r.NormURI)
-	case "uri_escaped", "rewrite_uri_escaped":
+	case "uri_escaped":
 		return alts("uri", url.QueryEscape(r.Target), url.QueryEscape(r.NormURI))
 	case "query":
 		return orEmpty("query", r.RawQuery)
@@ -190,9 +206,18 @@ func expand(name string, r *reqRec) frag {
 		return alts("fragment", emptyMark, "")
 	case "file":
 		_, f := path.Split(r.Path)
+		if r.RwPath != "" {
+			// of the requested or of the rewritten path: not stated
+			_, f2 := path.Split(r.RwPath)
+			return alts("path", f, f2)
+		}
 		return orEmpty("path", f)
 	case "dir":
 		d, _ := path.Split(r.Path)
+		if r.RwPath != "" {
+			d2, _ := path.Split(r.RwPath)
+			return alts("path", d, d2)
+		}
 		return orEmpty("path", d)
 	case "proto":
 		return alts("proto", "HTTP/1.1")
